@@ -463,6 +463,8 @@ class Engine(Interp):
             return obj.maxlen
         if isinstance(obj, TimerRec) and attr in ("daemon", "interval", "args", "function"):
             return {"daemon": obj.daemon, "interval": obj.delay, "args": obj.args, "function": obj.fn}[attr]
+        if isinstance(obj, Opaque) and attr in getattr(obj, "attrs", {}):
+            return obj.attrs[attr]          # data attribute given to a stubbed collaborator by the harness
         if isinstance(obj, (z3.ExprRef, SBytes, SList, SDict, TimerRec, Opaque)):
             return BoundSym(attr, obj)
         if isinstance(obj, (int, float, str, bytes, bytearray, tuple, frozenset, types.ModuleType, type, enum.Enum,
